@@ -95,3 +95,8 @@ CASES += [
     m("cut-off attribute misspelt again (the repaired defect)", "C01-D", R + "foerstertensor.py",
       "                cft = self.cutoff_time", "                cft = self.cut_off_time"),
 ]
+
+CASES += [
+    m("time-dependent combined tensor calls the rate routine without the integral (the repaired defect)", "C01-D", R + "tdredfieldfoerster.py",
+      "            KF = td_foerster_rates(Na, Nt, hh, tt, gvals, lamb, _td_fintegral)", "            KF = td_foerster_rates(Na, Nt, hh, tt, gvals, lamb)"),
+]
